@@ -3,8 +3,11 @@
 Primitive level: every request of the C02 primitive stream is run a second time with all cluster values (buffer
 contents, supplied clusters, set_masks bounds) relabelled by a strictly increasing map — on the crate and on the Lean
 model (correspondence) — and the crate's relabelled trace is compared with its original trace after un-relabelling.
+The crate's original traces are also checked against `a primitive never changes a mask bit outside glyph_flag::DEFINED`
+(prims-feature-bits; theorem C15_prims_keep_feature_bits).
 Shape level: paired shape() calls through the public API (relabelled input + feature ranges; the three levels pairwise)
-on the corpus, on structured Hangul over 11 support variants and on generated AAT fonts with morx + feat.
+on the corpus, on structured Hangul over 11 support variants, on generated AAT fonts with morx + feat and on generated
+GSUB fonts that delete glyphs before lookups of ranged user features (gsub-del).
 Shaper level: the Hangul preprocess hook at the three levels and the morx substitute hook under relabelling with gaps
 (both also as correspondence streams against the Lean models the C15 theorems are about)."""
 import re
@@ -113,6 +116,89 @@ def compare_traces(f, ln, rep, rep_rel):
     return None
 
 
+# a primitive of the cluster / flag bookkeeping writes clusters and GLYPH FLAGS only: the other 29 bits of a glyph's mask are
+# the feature bits set_masks gave it; they select the lookups that act on the glyph and must travel with the glyph untouched
+
+DEFINED = 7
+FEATURE_BITS = 0xFFFFFFFF ^ DEFINED
+STILL = {"merge", "mergeout", "utb", "utbo", "utc", "utco", "tatweel", "formcl"}      # no glyph moves, none appears
+MOVES = {"next", "nexts", "copy", "skip", "moveto", "sync", "rev", "revr", "revg", "revgr", "sort", "native", "finalrev",
+         "del", "delin"}                                                            # glyphs move / vanish, none is new
+
+
+def fkey(x):
+    return (x[0], x[1] & FEATURE_BITS)
+
+
+def feature_bits_trace(ln, reply):
+    """deviations of one crate trace from `a primitive never changes mask bits outside glyph_flag::DEFINED of any glyph`
+    (statement of Props/C15.lean, C15_prims_keep_feature_bits): list of dicts, empty = fine.  Per primitive of the trace,
+    on the logical glyph sequence out[0..out_len) ++ info[idx..len): STILL primitives keep the sequence of (glyph id,
+    feature bits) exactly; delete_glyph removes the current glyph, delete_glyphs_inplace the marked ones, and keep the rest in
+    order; the other moving primitives produce only (glyph id, feature bits) pairs that were there; the primitives that
+    create a glyph (replace_glyph(s), output_glyph) give it the feature bits of the glyph it is copied from."""
+    parts = ln.split(" ; ")
+    st0 = bufgen.parse_state(parts[0].split(" ", 1)[1])
+    ops = [o.strip() for o in parts[1:]]
+    tr = bufgen.parse_trace(reply)
+    if tr is None:
+        return []
+    bad = []
+    prev = st0
+    for k, (op, st) in enumerate(zip(ops, tr[1])):
+        a = op.split()
+        name = a[0]
+        if prev.get("ok", 1) != 1 or st.get("ok", 1) != 1:
+            prev = st; continue
+        O, R = bufgen.view(prev)
+        O2, R2 = bufgen.view(st)
+        before, after = [fkey(x) for x in O + R], [fkey(x) for x in O2 + R2]
+        want = None
+        if name in STILL: want = before
+        elif name == "del" and R: want = [fkey(x) for x in O + R[1:]]
+        elif name == "delin" and not prev["h"]: want = [fkey(x) for x in R if x[4] != 1]
+        if want is not None:
+            if after != want:
+                bad.append({"kind": "feature-bits", "step": k, "op": op, "level": prev["L"], "before": before, "after": after, "expected": want})
+        elif name in MOVES or name in ("repl", "repls", "outg"):
+            allowed = set(before)
+            if name in ("repl", "repls", "outg"):
+                src = R[0] if R else (O[-1] if O else None)
+                if src is not None:
+                    allowed |= {(int(g), src[1] & FEATURE_BITS) for g in (a[1:] if name != "repls" else a[2:])}
+            extra = [x for x in after if x not in allowed]
+            if extra:
+                bad.append({"kind": "feature-bits", "step": k, "op": op, "level": prev["L"], "before": before, "after": after, "foreign": extra})
+        prev = st
+    return bad
+
+
+def prim_feature_bits(ctx, base, outs):
+    bad, evals, kinds = [], 0, {}
+    for ln, o in zip(base, outs):
+        ops = [x.split()[0] for x in ln.split(" ; ")[1:]]
+        evals += sum(1 for x in ops if x in STILL or x in MOVES or x in ("repl", "repls", "outg"))
+        for d in feature_bits_trace(ln, o):
+            kinds[d["op"].split()[0]] = kinds.get(d["op"].split()[0], 0) + 1
+            bad.append((len(ln), ln, d, o))
+    bad.sort(key=lambda x: x[0])
+    seen = set()
+    for _, ln, d, o in bad:
+        key = d["op"].split()[0]
+        if key in seen: continue
+        seen.add(key)
+        ctx.violation(f"buffer primitive changes feature bits (mask bits outside glyph_flag::DEFINED) of a glyph: step {d['step']} ({d['op']}) at "
+                      f"level {d['level']}: (glyph id, feature bits) {d['before']} -> {d['after']}"
+                      + (f", expected {d['expected']}" if "expected" in d else f", foreign {d['foreign']}"),
+                      {"stage": "search", "stream": "prims-feature-bits", "request": ln, "deviation": d, "observed": o[:3000]})
+    ctx.note_search("prims-feature-bits", evals, len(set(base)), deviations=kinds,
+                    rule="the traces of the primitive stream (masks of the injected glyphs carry random feature bits): on the logical "
+                         "sequence out[0..out_len) ++ info[idx..len), merge_clusters / merge_out_clusters / the five flag routines / "
+                         "form_clusters keep the sequence of (glyph id, mask & !DEFINED) exactly, delete_glyph and delete_glyphs_inplace "
+                         "keep it for the surviving glyphs, cursor moves / reversals / sort only permute or drop pairs, replace_glyph(s) "
+                         "and output_glyph copy the feature bits of the current glyph; cases = primitives checked")
+
+
 def prim_relabel(ctx, shim, r, n):
     base = C02.prim_lines(r, n)
     maps = [make_map(r) for _ in range(len(base))]
@@ -122,6 +208,7 @@ def prim_relabel(ctx, shim, r, n):
     # (b) crate vs crate: relabelled run = relabelled image of the original run
     oa = vlib.run_lines(shim, base)
     ob = vlib.run_lines(shim, rel)
+    prim_feature_bits(ctx, base, oa)
     bad = []
     for ln, ln2, (name, f), a, b in zip(base, rel, maps, oa, ob):
         d = compare_traces(f, ln, a, b)
@@ -361,7 +448,7 @@ def eval_pairs(ctx, shim, groups, gen=None, what_relabel=None, what_levels=None,
                                                      "replies": [x[:400] for x in reps] + [ofull[:400]]}
             ctx.violation(f"shape(): relabelling changes glyphs, positions or glyph flags when two overlapping settings of one AAT feature contradict each other "
                           f"({len(explained)} request pairs, {len(set(_font_name(x[1]) for x in explained))} fonts; {detail}; requests "
-                          f"{' | '.join(' '.join(x.split()[4:7] + x.split()[7:8] + x.split()[10:11]) for x in q[5:])}; with the global "
+                          f"{' | '.join(' '.join(x.split()[2:4] + x.split()[5:8] + x.split()[10:11]) for x in q[5:])}; with the global "
                           f"features' start mapped as well ({qfull.split()[7]}) the result is the relabelled image again)",
                           {"stage": "search", "stream": "shape-relabel", "generator": gen or "corpus", "kind": "relabel-conflict",
                            "font_line": reg, "requests": list(q[5:]), "full_image_request": qfull, "map": q[1],
@@ -377,7 +464,7 @@ def eval_pairs(ctx, shim, groups, gen=None, what_relabel=None, what_levels=None,
             stats["mid-grapheme-example"] = {"font": _font_name(reg), "kind": key[1], "requests": list(q[5:]), "replies": [x[:400] for x in reps]}
             continue     # reported separately: a ranged feature bound inside a grapheme is outside the property's hypothesis
         ctx.violation(f"shape(): {'relabelling the input clusters changes ' + key[1] if key[0] == 'relabel' else 'the cluster level changes glyphs or positions (' + str(key[-1]) + ')' if key[0] == 'levels' else key[0]} "
-                      f"({len(lst)} request pairs, {len(set(_font_name(x[1]) for x in lst))} fonts{'; generator ' + gen if gen else ''}; {detail}; requests {' | '.join(' '.join(x.split()[4:7] + x.split()[7:8] + x.split()[10:11]) for x in q[5:])})",
+                      f"({len(lst)} request pairs, {len(set(_font_name(x[1]) for x in lst))} fonts{'; generator ' + gen if gen else ''}; {detail}; requests {' | '.join(' '.join(x.split()[2:4] + x.split()[5:8] + x.split()[10:11]) for x in q[5:])})",
                       {"stage": "search", "stream": "shape-" + key[0], "generator": gen or "corpus", "font_line": reg, "requests": list(q[5:]),
                        "map": q[1] if key[0] == "relabel" else None,
                        "cluster_map": [[c, q[2](c)] for c in sorted(set(q[3]))] if key[0] == "relabel" else None,
@@ -925,6 +1012,197 @@ def grapheme_pair_requests(r, ncorpus, nsynth, per_font):
     return groups
 
 
+# ------------------------------------------------------------------------------------------------
+# generated GSUB(+GPOS) fonts that DELETE glyphs, followed by lookups of RANGED user features
+#
+# Glyph deletion (MultipleSubst to the empty sequence, directly or nested in a contextual lookup) is where the buffer
+# has to merge a cluster *backward* (delete_glyph): which earlier glyphs are touched depends on which glyphs share a cluster
+# value, i.e. on the cluster level.  Whatever such a merge writes besides cluster values and glyph flags (feature bits of the
+# mask, glyph properties …) makes a later lookup act on level-dependent glyphs.  The buffer runs with descending clusters in
+# every non-native direction, so all directions are drawn for every script.
+
+DEL_ALPHABETS = {
+    # name: (letters, combining marks (all Mn: grapheme continuations), script tag, native horizontal direction)
+    "latin": (list(range(0x61, 0x68)), [0x301, 0x308, 0x323, 0x327], "Latn", "l"),
+    "cyrillic": (list(range(0x430, 0x437)), [0x301, 0x306, 0x308], "Cyrl", "l"),
+    "hebrew": (list(range(0x5D0, 0x5D7)), [0x5B4, 0x5B7, 0x5BC, 0x5C1], "Hebr", "r"),
+    "arabic": ([0x628, 0x62A, 0x62C, 0x633, 0x644, 0x645, 0x646], [0x64E, 0x650, 0x651, 0x652], "Arab", "r"),
+}
+DEL_ON_TAGS = ["ccmp", "liga", "calt", "rlig", "locl", "clig", "rclt"]            # on by default in every shaper
+DEL_USER_TAGS = ["ss01", "ss02", "ss03", "ss04", "ss05", "smcp", "salt", "dlig", "hist", "swsh", "c2sc", "zero"]
+
+
+def del_recipe(r):
+    """a fontbuild recipe + (letters, marks, script, native dir, feature tags in lookup order, tags of deleting features).
+    Glyphs 1..k are letters, k+1..k+m combining marks (optionally GDEF class 3), further ids are FRESH glyphs that only one
+    substitution produces (the output glyph tells which lookup acted on which glyph).  3-7 lookups in random order with at
+    least one deleting lookup that is not the last and a one-for-one substitution after it:
+      del      MultipleSubst, empty sequence for 1-3 letters / marks / derived glyphs (sometimes also 1-2 glyph sequences)
+      ctxdel   (Chain)Context format 3 over letters / marks whose record applies a deleting leaf to one input position
+      single   SingleSubst letters / marks / derived -> fresh glyphs          multi    MultipleSubst -> two fresh glyphs
+      lig      LigatureSubst letter + letter | letter + mark -> fresh glyph   ctxsingle  contextual wrapper of a single leaf
+    each top-level lookup belongs to one feature: an on-by-default tag or an off-by-default (user) tag; in half of the fonts
+    a GPOS table with 1-2 SinglePos lookups (advance / placement of letters, marks and derived glyphs) under user tags or
+    kern / dist.  No font has a space glyph: invisible default ignorables are deleted in place before GPOS."""
+    import fontbuild
+    alpha = r.choice(sorted(DEL_ALPHABETS))
+    letters_cp, marks_cp, script, native = DEL_ALPHABETS[alpha]
+    k = r.range(3, 6); m = r.range(2, 3)
+    letters_cp = letters_cp[:k]; marks_cp = r.sample(marks_cp, m)
+    L = list(range(1, k + 1)); Mk = list(range(k + 1, k + m + 1))
+    nxt = [k + m + 1]
+    def fresh():
+        nxt[0] += 1
+        return nxt[0] - 1
+    derived = []
+    lookups, top = [], []          # top: [(lookup index, kind)]
+    def dom(lo, hi, pool=None):
+        pool = (L + Mk + derived[-6:]) if pool is None else pool
+        return sorted(set(r.sample(pool, r.range(lo, min(hi, len(pool))))))
+    def leaf_del():
+        cov = dom(1, 3)
+        seqs = [[] if r.chance(4, 5) else [r.choice(L + Mk) for _ in range(r.range(1, 2))] for _ in cov]
+        if all(seqs): seqs[r.below(len(seqs))] = []
+        lookups.append({"type": 2, "flag": 0, "subtables": [{"coverage": cov, "sequences": seqs}]})
+        return len(lookups) - 1
+    def leaf_single():
+        cov = dom(3, k + m + 2)
+        sub = [fresh() for _ in cov]; derived.extend(sub)
+        lookups.append({"type": 1, "flag": 0, "subtables": [{"format": 2, "coverage": cov, "subst": sub}]})
+        return len(lookups) - 1
+    def ctx(leaf):
+        n_in = r.range(1, 3)
+        inp = [dom(1, 4, L + Mk) for _ in range(n_in)]
+        recs = [(r.below(n_in), leaf)]
+        if r.chance(1, 2):
+            st = {"format": 3, "coverages": inp, "lookups": recs}; t = 5
+        else:
+            st = {"format": 3, "backtrack": [dom(1, 5, L + Mk) for _ in range(r.below(2))], "coverages": inp,
+                  "lookahead": [dom(1, 5, L + Mk) for _ in range(r.below(2))], "lookups": recs}; t = 6
+        lookups.append({"type": t, "flag": r.choice([0, 0, 0, 8]) if gdef else 0, "subtables": [st]})
+        return len(lookups) - 1
+    gdef = r.chance(2, 3)
+    nl = r.range(3, 7)
+    kinds = [r.choice(["del", "ctxdel", "single", "single", "single", "multi", "lig", "ctxsingle"]) for _ in range(nl)]
+    d = r.below(nl - 1)
+    if not any(x in ("del", "ctxdel") for x in kinds[:nl - 1]): kinds[d] = r.choice(["del", "del", "ctxdel"])
+    first_del = min(i for i, x in enumerate(kinds) if x in ("del", "ctxdel"))
+    if not any(x in ("single", "ctxsingle") for x in kinds[first_del + 1:]): kinds[r.range(first_del + 1, nl - 1)] = "single"
+    for kind in kinds:
+        if kind == "del": top.append((leaf_del(), kind))
+        elif kind == "ctxdel": top.append((ctx(leaf_del()), kind))
+        elif kind == "single": top.append((leaf_single(), kind))
+        elif kind == "ctxsingle": top.append((ctx(leaf_single()), kind))
+        elif kind == "multi":
+            cov = dom(1, 3)
+            seqs = [[fresh(), fresh()] for _ in cov]; derived.extend(g for q in seqs for g in q)
+            lookups.append({"type": 2, "flag": 0, "subtables": [{"coverage": cov, "sequences": seqs}]})
+            top.append((len(lookups) - 1, kind))
+        else:
+            cov = dom(1, 3, L)
+            sets = []
+            for _ in cov:
+                g = fresh(); derived.append(g)
+                sets.append([{"components": [r.choice(L + Mk)], "glyph": g}])
+            lookups.append({"type": 4, "flag": r.choice([0, 0, 8]) if gdef else 0, "subtables": [{"coverage": cov, "ligsets": sets}]})
+            top.append((len(lookups) - 1, kind))
+    # lookups are applied in lookup-list order = the order of `kinds` (a nested leaf sits right before its wrapper and is
+    # not referenced by a feature)
+    on = r.sample(DEL_ON_TAGS, r.range(1, 3)); user = r.sample(DEL_USER_TAGS, r.range(2, 5))
+    feats, by_tag, del_tags = [], {}, set()
+    for li, kind in top:
+        deleting = kind in ("del", "ctxdel")
+        t = r.choice(on + user) if deleting else (r.choice(user) if r.chance(4, 5) else r.choice(on))
+        by_tag.setdefault(t, []).append(li)
+        if deleting: del_tags.add(t)
+    for t in on + user:
+        if t in by_tag: feats.append({"tag": t, "lookups": by_tag[t]})
+    n = nxt[0]
+    rec = {"num_glyphs": n, "cmap": {**{c: g for c, g in zip(letters_cp, L)}, **{c: g for c, g in zip(marks_cp, Mk)}},
+           "advances": [300 + 23 * g for g in range(n)], "gsub": {"features": feats, "lookups": lookups}}
+    if gdef:
+        rec["gdef"] = {"classes": {**{g: 1 for g in L}, **{g: 3 for g in Mk}}}
+    gpos_tags = []
+    if r.chance(1, 2):
+        gpos_tags = r.sample(user + ["kern", "dist"], r.range(1, 2))
+        gl = []
+        for _ in gpos_tags:
+            cov = sorted(set(r.sample(list(range(1, n)), r.range(3, min(10, n - 1)))))
+            gl.append({"type": 1, "flag": 0, "subtables": [{"format": 2, "coverage": cov, "values": [
+                {"xAdvance": r.range(5, 90)} if r.chance(2, 3) else {"xPlacement": r.range(5, 90), "yPlacement": r.range(5, 90)} for _ in cov]}]})
+        rec["gpos"] = {"features": [{"tag": t, "lookups": [i]} for i, t in enumerate(gpos_tags)], "lookups": gl}
+    tags = [f["tag"] for f in feats] + [t for t in gpos_tags if t not in by_tag]
+    return rec, letters_cp, marks_cp, script, native, tags, on, sorted(del_tags)
+
+
+DEL_IGNORABLES = [0x200B, 0x00AD, 0x2060, 0x034F, 0x200C, 0xFE00]     # ZWSP, SHY, WJ (graphemes of their own); CGJ, ZWNJ, VS1 (continuations)
+
+
+def del_text(r, letters, marks):
+    """2-5 graphemes: letter + 0-2 combining marks (at least one grapheme of several characters in 5 of 6 texts); in one text
+    of three, 1-2 default ignorables after some grapheme or inside it (the generated fonts have no space glyph, so
+    hide_default_ignorables deletes them IN PLACE — delete_glyphs_inplace — between GSUB and GPOS)"""
+    while True:
+        out = []
+        di = r.choice([0, 0, 1, 2])
+        for _ in range(r.range(2, 5)):
+            out.append(r.choice(letters))
+            for _ in range(r.choice([0, 0, 1, 1, 1, 2])):
+                out.append(r.choice(marks))
+                if di and r.chance(1, 4): out.append(r.choice(DEL_IGNORABLES[3:])); di -= 1
+            if di and r.chance(1, 2): out.append(r.choice(DEL_IGNORABLES)); di -= 1
+        if len(out) <= 12 and (len(out) > sum(1 for c in out if c in letters) or r.chance(1, 6)):
+            return out
+
+
+def del_pair_requests(r, nfonts, per_font):
+    """generated deleting fonts x texts of base + mark graphemes x five directions (explicit script or guessed) x input
+    numberings x feature lists: every feature of the font absent / global on / global off / on or off on 1-2 ranges whose
+    bounds are input cluster values at grapheme starts; the deleting features are kept active somewhere.  Each request at the
+    three levels and under one relabelling."""
+    import fontbuild
+    groups = []
+    stats = {"fonts": 0, "non-native": 0, "ranged": 0}
+    for fi in range(nfonts):
+        rec, letters, marks, script, native, tags, on, del_tags = del_recipe(r)
+        fid = f"D{fi}"
+        reqs = []
+        for _ in range(per_font):
+            cps = del_text(r, letters, marks)
+            cl = C02.input_clusters(r, len(cps), r.choice([0, 0, 1, 2, 3]))
+            starts = [i for i in cp_grapheme_starts(cps) if i == 0 or cl[i - 1] < cl[i]] or [0]
+            d = r.choice(["l", "r", "t", "b", "l", "r", None])
+            feats = []
+            for t in tags:
+                must = t in del_tags and t not in on
+                k = r.below(8)
+                if k == 0 and not must: continue                         # absent: the shaper's default
+                if k == 1 or (k == 0 and must): feats.append((t, 1, 0, U32MAX)); continue
+                if k == 2 and not must: feats.append((t, 0, 0, U32MAX)); continue
+                for _ in range(r.choice([1, 1, 2])):                     # ranged
+                    i = r.choice(starts); j = r.choice([x for x in starts if x > i] + [None])
+                    s_ = cl[i]; e_ = U32MAX if j is None else cl[j]
+                    if s_ == cl[0] and e_ == U32MAX: s_, e_ = 0, U32MAX
+                    feats.append((t, r.choice([1, 1, 1, 0, 2]) if not must else 1, s_, e_))
+            if r.chance(1, 3): feats = r.shuffle(feats)
+            flags = r.choice([0, 0, 0, 3, 4, 8, 0x40])
+            sc = script if r.chance(3, 4) else "-"
+            mk = lambda cl_, feats_, lv_: " ".join(["shape", fid, d or "-", sc, "-", str(flags), str(lv_),
+                                                     ",".join(f"{corpus.tag_hex(t)}:{v}:{x}:{y}" for t, v, x, y in feats_) or "-",
+                                                     "-", "-", ",".join(f"{c:x}:{q}" for c, q in zip(cps, cl_))])
+            ranged = any(not (a == 0 and b == U32MAX) for _, _, a, b in feats)
+            name, f = make_map(r)
+            lv = r.below(3)
+            reqs.append(("relabel", name, f, cl, ranged, mk(cl, feats, lv), mk([f(x) for x in cl], map_feats(feats, f), lv)))
+            reqs.append(("levels", "aligned", None, cl, None, mk(cl, feats, 0), mk(cl, feats, 1), mk(cl, feats, 2)))
+            if d is not None and ((d in "lr" and d != native) or d == "b"): stats["non-native"] += 1
+            if ranged: stats["ranged"] += 1
+        stats["fonts"] += 1
+        groups.append(([f"font {fid} {fontbuild.build(rec).hex()}"], reqs))
+    del_pair_requests.stats = stats
+    return groups
+
+
 def trak_streams(ctx, shim, r, nfonts, per_font):
     """AAT tracking alone (hook: hb_aat_layout_track on a bare buffer prepared by set_unicode_props + form_clusters at each of
     the three levels).  Correspondence: the crate against the model `Trak.trackAll` the theorems C15_trak_opaque /
@@ -1002,6 +1280,9 @@ def run(ctx):
     ctx.assumptions += [
         "theorems are about the Lean model of the buffer primitives (Buf.lean) and the cluster pipeline pieces (Cluster.lean); the tie "
         "to the crate is the cluster-prims-relabelled correspondence stream (and C02's cluster-prims stream)",
+        "that the cluster level changes clusters and flags only rests, inside the buffer, on C15_prims_keep_feature_bits (merges, flag "
+        "routines, form_clusters and both deletions write cluster values and glyph flags only: glyph ids and the feature bits of every "
+        "mask stay) — checked on the crate by the prims-feature-bits oracle over the same walks (random feature bits in the masks)",
         "of the shapers' own code two pieces that look at clusters / the level are covered by theorems on their models: Hangul "
         "preprocessing (C15_hangul_levels_and_labels; tie: hangul-pre-levels) and the morx non-contextual feature-range lookup "
         "(C15_enabledAt_relabel, C15_relabel_noncontextual; tie: morx-run-relabelled); the other shapers and the GSUB/GPOS "
@@ -1032,6 +1313,16 @@ def run(ctx):
                             "(9 .. 1000, 0, fractional) and ppem= drawn per request; 5 directions; 0-2 ranged features (trak, kern, "
                             "liga, mark, ccmp, smcp) with bounds at grapheme starts, sometimes trak=0",
                what_levels="the same grapheme requests")
+    eval_pairs(ctx, shim, del_pair_requests(ctx.rng("gsub-del"), ctx.budget(300, 4000), ctx.budget(10, 16)), gen="gsub-del",
+               what_relabel="generated GSUB fonts (letters + combining marks of Latin / Cyrillic / Hebrew / Arabic, optional GDEF mark "
+                            "classes, optional GPOS SinglePos under a user tag) with 3-7 lookups in random order: glyph DELETION "
+                            "(MultipleSubst to the empty sequence, directly or nested in a (Chain)Context format 3 lookup) followed by "
+                            "single / multiple / ligature / contextual substitutions to fresh glyph ids, each under an on-by-default or "
+                            "an off-by-default tag; texts of 2-5 graphemes (letter + 0-2 marks), directions l / r / t / b / guessed "
+                            "(so the buffer also runs with descending clusters), script explicit or guessed, every feature absent / "
+                            "global on / global off / on or off on 1-2 ranges with bounds at grapheme starts",
+               what_levels="the same requests on the deleting GSUB fonts")
+    ctx.note_search("shape-levels/gsub-del", 0, 0, generator_stats=del_pair_requests.stats)
     trak_streams(ctx, shim, ctx.rng("trak"), ctx.budget(8, 80), ctx.budget(40, 150))
     morx_relabel(ctx, shim, ctx.rng("morx"), ctx.budget(4000, 60000))
     eval_pairs(ctx, shim, aat_pair_requests(shim, ctx.rng("aat"), ctx.budget(150, 2000), ctx.budget(12, 24)), gen="aat",
@@ -1057,6 +1348,12 @@ def replay(ctx, rp):
         for lv, (q, x) in enumerate(zip(rp["requests"], o)):
             print(f"level {lv}:", " ".join(q.split()[3:7]), q.split()[7], "->", x)
         return 0 if o[0] == o[1] == o[2] else 1
+    if rp.get("stream") == "prims-feature-bits":
+        a = vlib.run_lines(shim, [rp["request"]], nproc=1)[0]
+        print("request:", rp["request"]); print("reply  :", a[:3000])
+        ds = feature_bits_trace(rp["request"], a)
+        for d in ds: print("deviation:", d)
+        return 1 if ds else 0
     if rp.get("stream") == "prims-relabel":
         a, b = vlib.run_lines(shim, [rp["request"], rp["relabelled_request"]], nproc=1)
         print("request    :", rp["request"]); print("reply      :", a[:3000])
